@@ -53,6 +53,19 @@ Proof.
         destruct (pos_of _ _ _) as [a b]. destruct (pos_of _ _ _) as [a' b']. intro H; inversion H.
 Qed.
 
+Lemma op_newreg_atomic s i mq s' k : op_newreg s i mq = (s', Err k) -> s' = s.
+Proof.
+  unfold op_newreg. destruct (Nat.leb _ _); intro H; inversion H; auto.
+Qed.
+
+Lemma op_new_inreg_atomic s i ow kk s' k : op_new_inreg s i ow kk = (s', Err k) -> s' = s.
+Proof.
+  unfold op_new_inreg. destruct (negb _); [intro H; inversion H; auto|].
+  destruct (Nat.leb _ _); [intro H; inversion H; auto|].
+  destruct (find_reg _ _) as [r|]; [|intro H; inversion H].
+  destruct (Nat.leb _ _); intro H; inversion H; auto.
+Qed.
+
 Theorem refusal_atomic s o s' k : step s o = (s', Err k) -> s' = s.
 Proof.
   destruct o; simpl.
@@ -61,6 +74,8 @@ Proof.
   - apply op_gate2_atomic.
   - apply op_send_atomic.
   - apply op_meas_atomic.
+  - destruct (Nat.ltb _ _); [apply op_newreg_atomic | intro H; inversion H].
+  - destruct (Nat.ltb _ _); [apply op_new_inreg_atomic | intro H; inversion H].
 Qed.
 
 (* the model never crashes *)
@@ -94,6 +109,10 @@ Proof.
   - unfold op_meas. destruct (find_handle _ _) as [[? q]|]; [|discriminate].
     destruct (locate _ _) as [[? ?]|]; [|discriminate].
     destruct (measure _ _ _ _ _) as [[? ?] ?]. destruct inplace; discriminate.
+  - destruct (Nat.ltb _ _); [|discriminate]. unfold op_newreg. destruct (Nat.leb _ _); discriminate.
+  - destruct (Nat.ltb _ _); [|discriminate]. unfold op_new_inreg.
+    destruct (negb _); [discriminate|]. destruct (Nat.leb _ _); [discriminate|].
+    destruct (find_reg _ _) as [r|]; [|discriminate]. destruct (Nat.leb _ _); discriminate.
 Qed.
 
 Ltac dec_solve :=
@@ -112,6 +131,46 @@ Proof.
   unfold op_new. fold nd.
   destruct (Nat.leb_spec (maxQ nd) (length (virt nd))); simpl; [dec_solve|].
   unfold add_register. destruct (Nat.leb_spec (maxR nd) (numRegs nd)); simpl; dec_solve.
+Qed.
+
+(* remote_add_register: refused exactly at the register limit (C07: `creating more registers than the configured maximum is refused`) *)
+Theorem newreg_decision s i mq : i < length (nodes s) ->
+  let nd := nth_node s i in
+  (snd (step s (ONewReg i mq)) = Err KQuantum <-> maxR nd <= numRegs nd) /\
+  ((exists v, snd (step s (ONewReg i mq)) = Ok v) <-> numRegs nd < maxR nd) /\
+  (snd (step s (ONewReg i mq)) = Ok (nextReg nd) <-> numRegs nd < maxR nd).
+Proof.
+  intros Hi nd. simpl. destruct (Nat.ltb_spec i (length (nodes s))); [|lia].
+  unfold op_newreg. fold nd.
+  destruct (Nat.leb_spec (maxR nd) (numRegs nd)); simpl; dec_solve.
+Qed.
+
+(* remote_new_qubit_inreg on a register the node lists: the complete refusal table.  Asked of a node that does not simulate the
+   register: quantumError; node at its qubit capacity: noQubitError; register full: noQubitError; otherwise it succeeds. *)
+Theorem newinreg_decision s i ow k r : i < length (nodes s) ->
+  find_reg k (regs (nth_node s ow)) = Some r ->
+  let nd := nth_node s i in
+  (snd (step s (ONewInReg i ow k)) = Err KQuantum <-> ow <> i) /\
+  (snd (step s (ONewInReg i ow k)) = Err KNoQubit <-> ow = i /\ (maxQ nd <= length (virt nd) \/ r_max r <= r_n r)) /\
+  ((exists v, snd (step s (ONewInReg i ow k)) = Ok v) <-> ow = i /\ length (virt nd) < maxQ nd /\ r_n r < r_max r).
+Proof.
+  intros Hi Hf nd. simpl. destruct (Nat.ltb_spec i (length (nodes s))); [|lia].
+  unfold op_new_inreg. destruct (Nat.eqb_spec ow i) as [->|Hne]; simpl.
+  2:{ repeat split; intros; try discriminate; try tauto;
+      try (match goal with H : exists _, _ |- _ => destruct H; discriminate end);
+      try (match goal with H : _ /\ _ |- _ => destruct H; contradiction end). }
+  fold nd. fold nd in Hf.
+  destruct (Nat.leb_spec (maxQ nd) (length (virt nd))); simpl.
+  { repeat split; intros; try discriminate; try tauto; auto;
+      try (match goal with H : exists _, _ |- _ => destruct H; discriminate end);
+      try (match goal with H : _ /\ _ |- _ => destruct H as (_ & ? & _); lia end). }
+  rewrite Hf.
+  destruct (Nat.leb_spec (r_max r) (r_n r)); simpl.
+  { repeat split; intros; try discriminate; try tauto; auto;
+      try (match goal with H : exists _, _ |- _ => destruct H; discriminate end);
+      try (match goal with H : _ /\ _ |- _ => destruct H as (_ & _ & ?); lia end). }
+  repeat split; intros; try discriminate; try tauto; auto; eauto;
+    try (match goal with H : _ /\ (_ \/ _) |- _ => destruct H as (_ & [?|?]); lia end).
 Qed.
 
 Theorem send_decision s h t vi q : find_handle s h = Some (vi, q) ->
